@@ -160,3 +160,14 @@ M('c19_bins_drop_last', 'C19', (T, "    bins = np.linspace(0, n_states + 1, n_pa
 M('c19_rebase_wrong_offset', 'C19', (T, "    for offset, part in zip(bins[:-1], parts):\n", "    for offset, part in zip(bins[1:] - bins[1], parts):\n"))
 M('c19_equal_parts_not_trimmed', 'C19', (TR, "            subtrajectories = [trajectory[0:minsize] for trajectory in subtrajectories]\n", "            subtrajectories = [trajectory[0:minsize] for trajectory in subtrajectories[:-1]] + subtrajectories[-1:]\n"))
 M('c19_jumps_split_residence_lost', 'C19', (J, "                minimal_residence=self.minimal_residence,\n            )\n            for part in parts\n", "                minimal_residence=0,\n            )\n            for part in parts[::-1]\n"))
+# ---- C11 -------------------------------------------------------------------------------------
+R = 'rdf.py'
+M('c11_revert_F7', 'C11,C07', (R, "    palette = np.arange(-1, len(labels), dtype=int)\n", "    palette = np.arange(len(labels), dtype=int)\n"))
+M('c11_digitize_left', 'C11', (R, "        rdf = np.digitize(dists, bins, right=True)\n", "        rdf = np.digitize(dists, bins, right=False)\n"))
+M('c11_prev_next_swapped', 'C11', (R, "    states_prev = _uniqify_labels(transitions.states_prev(), labels)\n    states_next = _uniqify_labels(transitions.states_next(), labels)\n", "    states_prev = _uniqify_labels(transitions.states_next(), labels)\n    states_next = _uniqify_labels(transitions.states_prev(), labels)\n"))
+M('c11_keep_overflow', 'C11', (R, "            y=values[:-1],\n", "            y=values[1:],\n"))
+M('c11_norm_no_shell', 'C11', (R, "        return particle_vol * (4 / 3) * np.pi * shell\n", "        return particle_vol * (4 / 3) * np.pi * resolution**3 + 0 * shell\n"))
+M('c11_euclid_frac', 'C11,C07', (R, "        dists = lattice.get_all_distances(t_sp_coords, t_coords)\n", "        dists = np.linalg.norm(lattice.get_cartesian_coords(t_sp_coords[:, None, :] - t_coords[None, :, :]), axis=-1)\n"))
+M('c11_between_first_frame_only', 'C11', (R, "            for t in range(num_time_steps)\n", "            for t in range(num_time_steps - (num_time_steps > 25))\n"))
+M('c11_state_double_count', 'C11', (R, "            k_idx = np.argwhere(t_states == state)\n", "            k_idx = np.argwhere(t_states >= state) if len(states) > 2 else np.argwhere(t_states == state)\n"))
+M('c11_particle_vol_species1', 'C11', (R, "    coords_2 = trajectory.filter(specie_2).coords\n", "    coords_2 = trajectory.filter(specie_2).coords\n    n1 = coords_1.shape[1]\n"), (R, "    particle_vol = num_atoms / lattice.volume\n", "    particle_vol = n1 / lattice.volume\n"))
